@@ -485,10 +485,14 @@ impl PacketReceiver for IceConn {
         // still unknown (port 0: held m= line, transport created before any SDP
         // address) the destination is chosen by the latch rules below - expected SSRC,
         // probation, RTP only - like every other move of the RTP destination.
-        let media_under_latch =
-            (128..192).contains(&first_byte) && self.latch_on_rtp.load(Ordering::Relaxed);
+        let latching = self.latch_on_rtp.load(Ordering::Relaxed);
+        let media_under_latch = (128..192).contains(&first_byte) && latching;
+        // The inbound-TCP shortcut follows whatever stream a packet arrives on. With
+        // latching on it would move the RTP destination on any packet (RTCP,
+        // wrong-SSRC RTP, after the latch has committed): there the latch rules below
+        // are the only way the destination moves.
         if (current_remote.port() == 0 && !media_under_latch)
-            || (socket_is_inbound_tcp && current_remote != addr)
+            || (socket_is_inbound_tcp && current_remote != addr && !latching)
         {
             *self.remote_addr.write() = addr;
         } else if addr != current_remote {
